@@ -675,7 +675,14 @@ pub fn check_image(wk: &mut crate::corrupt::WorkerHandle, scratch: &Path, cfg: &
     wk.run_image(&dir, cfg)
 }
 
-pub fn run(tier: &str, threads: usize, max_wall_s: f64) -> CrashOutcome {
+#[derive(serde::Deserialize, Default)]
+struct ImgAnswer {
+    ans: Vec<String>,
+    leftover: Vec<String>,
+}
+
+/// `leftover_mode` (C20): only files left behind after recovery are violations; otherwise (C05) only content.
+pub fn run(tier: &str, threads: usize, max_wall_s: f64, leftover_mode: bool) -> CrashOutcome {
     let start = std::time::Instant::now();
     let root = crate::hx::scratch_root().join("crash");
     crate::hx::fresh_dir(&root);
@@ -854,7 +861,7 @@ pub fn run(tier: &str, threads: usize, max_wall_s: f64) -> CrashOutcome {
                 let mut push = |kind: &str, msg: String| {
                     found.lock().unwrap().push(CrashReplay {
                         engine: "crash".into(),
-                        property: "C05".into(),
+                        property: if leftover_mode { "C20".into() } else { "C05".into() },
                         history_name: j.h.name.clone(),
                         cfg: j.h.cfg.clone(),
                         ops: j.h.ops.clone(),
@@ -875,8 +882,26 @@ pub fn run(tier: &str, threads: usize, max_wall_s: f64) -> CrashOutcome {
                     j.event,
                     j.img.iter().map(|(k, v)| format!("{k}:{}", v.as_ref().map_or("dir".to_string(), |b| b.len().to_string()))).collect::<Vec<_>>()
                 );
+                if leftover_mode {
+                    if let Some(ans) = r.strip_prefix("ANS ") {
+                        let a: ImgAnswer = serde_json::from_str(ans).unwrap_or_default();
+                        if a.leftover.is_empty() {
+                            ok_after.fetch_add(1, Ordering::Relaxed);
+                        } else {
+                            let kind = if a.leftover.iter().any(|f| f.starts_with("tables/")) {
+                                "table"
+                            } else if a.leftover.iter().any(|f| f.starts_with("blobs/")) {
+                                "blob"
+                            } else {
+                                "version"
+                            };
+                            push(&format!("files-after-crash-recovery:{kind}"), format!("{ctx}: after recovery the directory still holds {:?}, which the recovered version does not name", a.leftover));
+                        }
+                    }
+                    continue;
+                }
                 if let Some(ans) = r.strip_prefix("ANS ") {
-                    let ans: Vec<String> = serde_json::from_str(ans).unwrap_or_default();
+                    let ans: Vec<String> = serde_json::from_str::<ImgAnswer>(ans).unwrap_or_default().ans;
                     let which = j.allowed.iter().position(|k| j.dumps.get(*k) == Some(&ans));
                     match which {
                         Some(0) if j.allowed.len() == 2 => {
@@ -948,8 +973,20 @@ pub fn replay(rp: &CrashReplay) -> String {
     let mut wk = crate::corrupt::WorkerHandle::spawn();
     let r = check_image(&mut wk, &root, &rp.cfg, &img);
     wk.kill();
-    let res = if let Some(ans) = r.strip_prefix("ANS ") {
-        let ans: Vec<String> = serde_json::from_str(ans).unwrap_or_default();
+    let res = if rp.property == "C20" {
+        match r.strip_prefix("ANS ") {
+            Some(ans) => {
+                let a: ImgAnswer = serde_json::from_str(ans).unwrap_or_default();
+                if a.leftover.is_empty() {
+                    "OK".to_string()
+                } else {
+                    format!("VIOLATION leftover files {:?}", a.leftover)
+                }
+            }
+            None => "OK (not a leftover case)".to_string(),
+        }
+    } else if let Some(ans) = r.strip_prefix("ANS ") {
+        let ans: Vec<String> = serde_json::from_str::<ImgAnswer>(ans).unwrap_or_default().ans;
         match clean_run(&rp.cfg, &rp.ops, &root) {
             Err(e) => format!("HARNESS {e}"),
             Ok((_, dumps)) => {
